@@ -148,7 +148,16 @@ def run_case(case, drv):
     results_s = body.split(" | ")[0]
     mres = [r.strip() for r in results_s.split(" ; ")] if case["ops"] else []
     acc = rej = 0
+    import random as _random
+    qrnd = _random.Random(len(case["ops"]) * 7919 + len(case["spec"]["arcs"]))
     for idx, op in enumerate(case["ops"]):
+        if qrnd.random() < 0.3:
+            # queries in the middle of the history (they must not influence what is reported later)
+            try:
+                o.get_constraint_data()
+                o.get_objective_data()
+            except Exception:  # noqa
+                pass
         if op[0] != "R":
             try:
                 if op[0] == "N":
